@@ -169,6 +169,100 @@ pub fn enc_charvars(l: &mut Line, p: &[CharVar]) {
     });
 }
 
+// ------------------------------------------------------------------------------ generic
+
+use portmatching::indexing::{DataBindMap, DataKey};
+use portmatching::{IndexedData, IndexingScheme, Predicate, ToConstraintsTree};
+use std::hash::Hash;
+
+/// Build the matcher, log, dump, and match all hosts; appends everything after `=>` to `l` and
+/// prints the record. `prefix` already holds the encoded inputs.
+#[allow(clippy::too_many_arguments)]
+pub fn e2e_generic<PT, P, D>(
+    mut l: Line,
+    patterns: Vec<PT>,
+    fallback: PatternFallback,
+    heur: &Heur,
+    hosts: &[D],
+    enc_cons: impl Fn(&mut Line, &Constraint<DataKey<D>, P>) + Copy,
+    enc_key: impl Fn(&DataKey<D>) -> String,
+    enc_map: impl Fn(&mut Line, &DataBindMap<D>) + Copy,
+) where
+    D: IndexedData,
+    D::IndexingScheme: Default,
+    DataKey<D>: 'static,
+    P: Predicate<D> + ToConstraintsTree<DataKey<D>> + std::fmt::Debug + 'static,
+    PT: Pattern<Key = DataKey<D>, Predicate = P> + Clone,
+    Constraint<DataKey<D>, P>: Eq + Clone + Hash,
+{
+    l.arrow();
+    let r = catch(|| {
+        take_log();
+        let (h, _calls) = heur.make();
+        let m: Result<ManyMatcher<PT, DataKey<D>, P, D::IndexingScheme>, _> =
+            ManyMatcher::try_from_patterns_with_det_heuristic(patterns.clone(), fallback, h);
+        let evs = take_log();
+        let mut out = Line::default();
+        let m = match m {
+            Ok(m) => m,
+            Err(_) => {
+                out.tok("ERR");
+                return out;
+            }
+        };
+        out.tok("ok");
+        // constraint vectors as produced by the implementation
+        let cvs: Vec<Option<Vec<_>>> = patterns
+            .iter()
+            .map(|p| p.try_to_constraint_vec().ok())
+            .collect();
+        out.list(&cvs, |l, cv| {
+            l.opt(cv, |l, cv| {
+                l.list(cv, |l, c| enc_cons(l, c));
+            });
+        });
+        out.tok(m.n_patterns());
+        let gp: Vec<usize> = (0..patterns.len() + 2)
+            .map(|i| m.get_pattern(PatternID(i)).is_some() as usize)
+            .collect();
+        out.nats(&gp);
+        out.tok(m.n_states());
+        enc_events(&mut out, &evs);
+        let d = m
+            .verif_automaton()
+            .verif_dump(|c| sub(|l| enc_cons(l, c)), &enc_key);
+        enc_dump(&mut out, &d);
+        out.tok(m.dot_string().matches(" -> ").count());
+        // the baseline is built from the convertible patterns only (it has no fallback mode)
+        let convertible: Vec<&PT> = patterns
+            .iter()
+            .filter(|p| p.try_to_constraint_vec().is_ok())
+            .collect();
+        let naive = NaiveManyMatcher::try_from_patterns(convertible.into_iter()).ok();
+        for h in hosts {
+            let ms: Vec<_> = m.find_matches(h).collect();
+            out.list(&ms, |l, pm| {
+                l.tok(pm.pattern.0);
+                enc_map(l, &pm.match_data);
+            });
+            let ns = naive
+                .as_ref()
+                .and_then(|n| catch(|| n.find_matches(h).collect::<Vec<_>>()).ok());
+            out.opt(&ns, |l, ns| {
+                l.list(ns, |l, pm| {
+                    l.tok(pm.pattern.0);
+                    enc_map(l, &pm.match_data);
+                });
+            });
+        }
+        out
+    });
+    match r {
+        Ok(out) => println!("{} {}", l.0, out.0.trim_start()),
+        Err(t) => println!("{} P {}", l.0, t),
+    }
+}
+
 // ------------------------------------------------------------------------------ strings
 
 pub fn string_case(kind: &str, pats: &[Vec<CharVar>], heur: &Heur, hosts: &[String]) {
@@ -181,71 +275,328 @@ pub fn string_case(kind: &str, pats: &[Vec<CharVar>], heur: &Heur, hosts: &[Stri
         let cs: Vec<usize> = h.chars().map(|c| c as usize).collect();
         l.nats(&cs);
     });
-    l.arrow();
     let patterns: Vec<StringPattern> = pats.iter().map(|p| StringPattern::new(p.clone())).collect();
-    let r = catch(|| {
-        take_log();
-        let (h, _calls) = heur.make();
-        let m: ManyMatcher<StringPattern, StringPatternPosition, CharacterPredicate, StringIndexingScheme> =
-            ManyMatcher::try_from_patterns_with_det_heuristic(
-                patterns.clone(),
-                PatternFallback::Fail,
-                h,
-            )
-            .unwrap();
-        let evs = take_log();
-        let naive = NaiveManyMatcher::try_from_patterns(patterns.iter()).unwrap();
-        let mut out = Line::default();
-        out.tok("ok");
-        // constraint vectors as produced by the implementation
-        let cvs: Vec<Vec<_>> = patterns
-            .iter()
-            .map(|p| p.try_to_constraint_vec().unwrap())
-            .collect();
-        out.list(&cvs, |l, cv| {
-            l.tok(1);
-            l.list(cv, |l, c| enc_scons(l, c));
+    e2e_generic::<StringPattern, CharacterPredicate, String>(
+        l,
+        patterns,
+        PatternFallback::Fail,
+        heur,
+        hosts,
+        enc_scons,
+        |k| {
+            let k: usize = (*k).into();
+            k.to_string()
+        },
+        enc_strmap,
+    );
+}
+
+// ------------------------------------------------------------------------------ matrices
+
+pub type MatPat = Vec<Vec<Option<CharVar>>>;
+
+pub fn enc_matpat(l: &mut Line, p: &MatPat) {
+    l.list(p, |l, row| {
+        l.list(row, |l, cell| {
+            match cell {
+                None => l.tok(2).tok(0),
+                Some(CharVar::Literal(c)) => l.tok(0).tok(*c as u32),
+                Some(CharVar::Variable(c)) => l.tok(1).tok(*c as u32),
+            };
         });
-        out.tok(m.n_patterns());
-        let gp: Vec<usize> = (0..patterns.len() + 2)
-            .map(|i| m.get_pattern(PatternID(i)).is_some() as usize)
-            .collect();
-        out.nats(&gp);
-        out.tok(m.n_states());
-        enc_events(&mut out, &evs);
-        let d = m.verif_automaton().verif_dump(
-            |c| sub(|l| enc_scons(l, c)),
-            |k| {
-                let k: usize = (*k).into();
-                k.to_string()
-            },
-        );
-        enc_dump(&mut out, &d);
-        out.tok(m.dot_string().matches("->").count());
-        for h in hosts {
-            let ms: Vec<_> = m.find_matches(h).collect();
-            out.list(&ms, |l, pm| {
-                l.tok(pm.pattern.0);
-                enc_strmap(l, &pm.match_data);
-            });
-            match catch(|| naive.find_matches(h).collect::<Vec<_>>()) {
-                Ok(ns) => {
-                    out.tok(1);
-                    out.list(&ns, |l, pm| {
-                        l.tok(pm.pattern.0);
-                        enc_strmap(l, &pm.match_data);
-                    });
+    });
+}
+
+pub fn matrix_case(kind: &str, pats: &[MatPat], heur: &Heur, hosts: &[Vec<Vec<char>>]) {
+    let mut l = Line::new(kind);
+    l.tok("M");
+    l.list(pats, |l, p| enc_matpat(l, p));
+    l.tok(1);
+    heur.encode(&mut l);
+    l.list(hosts, |l, h| enc_rows(l, h));
+    let patterns: Vec<MatrixPattern> = pats.iter().map(|p| MatrixPattern::new(p.clone())).collect();
+    let hs: Vec<MatrixString> = hosts.iter().map(|h| MatrixString { rows: h.clone() }).collect();
+    e2e_generic::<MatrixPattern, CharacterPredicate, MatrixString>(
+        l,
+        patterns,
+        PatternFallback::Fail,
+        heur,
+        &hs,
+        enc_mcons,
+        |k: &MatrixPatternPosition| {
+            let k: (isize, isize) = (*k).into();
+            format!("{} {}", k.0, k.1)
+        },
+        enc_matmap,
+    );
+}
+
+pub fn random_matpat(rng: &mut Rng, nlits: usize) -> MatPat {
+    let nrows = if rng.chance(1, 15) { 0 } else { rng.range(1, 3) };
+    (0..nrows)
+        .map(|_| {
+            let ncols = rng.range(0, 3);
+            (0..ncols)
+                .map(|_| match rng.below(7) {
+                    0 => None,
+                    1 | 2 => Some(CharVar::Variable(*rng.pick(&VARS))),
+                    _ => Some(CharVar::Literal(LITS[rng.below(nlits)])),
+                })
+                .collect()
+        })
+        .collect()
+}
+
+fn instantiate_mat(rng: &mut Rng, p: &MatPat) -> Vec<Vec<char>> {
+    let mut env: FxHashMap<char, char> = FxHashMap::default();
+    p.iter()
+        .map(|row| {
+            row.iter()
+                .map(|cell| match cell {
+                    None => *rng.pick(&LITS),
+                    Some(CharVar::Literal(c)) => *c,
+                    Some(CharVar::Variable(v)) => *env.entry(*v).or_insert_with(|| *rng.pick(&LITS)),
+                })
+                .collect()
+        })
+        .collect()
+}
+
+pub fn planted_mat_host(rng: &mut Rng, pats: &[MatPat]) -> Vec<Vec<char>> {
+    match rng.below(14) {
+        0 => return vec![],
+        1 => return vec![vec![], vec!['a']],
+        _ => {}
+    }
+    let nrows = rng.range(1, 5);
+    let mut rows: Vec<Vec<char>> = (0..nrows)
+        .map(|_| {
+            let n = rng.range(0, 6);
+            (0..n).map(|_| *rng.pick(&LITS)).collect()
+        })
+        .collect();
+    // plant up to two instantiated patterns
+    for _ in 0..rng.range(0, 2) {
+        if pats.is_empty() {
+            break;
+        }
+        let chosen = rng.pick(pats).clone();
+        let inst = instantiate_mat(rng, &chosen);
+        let r0 = rng.below(nrows);
+        let c0 = rng.below(4);
+        for (i, row) in inst.iter().enumerate() {
+            if r0 + i >= rows.len() {
+                if rng.chance(1, 2) {
+                    break;
                 }
-                Err(_) => {
-                    out.tok(0);
+                rows.push(vec![]);
+            }
+            let hr = &mut rows[r0 + i];
+            for (j, ch) in row.iter().enumerate() {
+                while hr.len() <= c0 + j {
+                    hr.push(*rng.pick(&LITS));
                 }
+                hr[c0 + j] = *ch;
             }
         }
-        out
+    }
+    if rng.chance(1, 4) && !rows.is_empty() {
+        // perturb one cell / shorten one row
+        let r = rng.below(rows.len());
+        if !rows[r].is_empty() {
+            if rng.chance(1, 2) {
+                let c = rng.below(rows[r].len());
+                rows[r][c] = 'd';
+            } else {
+                rows[r].pop();
+            }
+        }
+    }
+    rows
+}
+
+pub fn gen_matrix_set(rng: &mut Rng, thorough: bool) -> Vec<MatPat> {
+    let np = if rng.chance(1, 30) { 0 } else { rng.range(1, if thorough { 8 } else { 5 }) };
+    let nlits = rng.range(1, 3);
+    let mut pats: Vec<MatPat> = vec![];
+    for _ in 0..np {
+        if !pats.is_empty() && rng.chance(1, 4) {
+            let mut base = rng.pick(&pats).clone();
+            if rng.chance(1, 2) && !base.is_empty() {
+                let r = rng.below(base.len());
+                base[r].push(Some(CharVar::Literal(LITS[rng.below(nlits)])));
+            }
+            pats.push(base);
+        } else {
+            pats.push(random_matpat(rng, nlits));
+        }
+    }
+    pats
+}
+
+pub fn run_matrices(seed: u64, thorough: bool, n: usize) {
+    let mut rng = Rng::new(seed, "e2e.mat");
+    let l = |c: char| Some(CharVar::Literal(c));
+    let v = |c: char| Some(CharVar::Variable(c));
+    // fixed cases first: the F2 witness and relatives
+    let fixed: Vec<(Vec<MatPat>, Vec<Vec<char>>)> = vec![
+        (vec![vec![vec![l('a'), v('x')]]], vec![vec!['a']]),
+        (vec![vec![vec![l('a'), v('x')]]], vec![vec!['a', 'b'], vec!['a']]),
+        (vec![vec![vec![v('x')], vec![v('y')]]], vec![vec!['a', 'b']]),
+        (vec![vec![vec![None, l('a')]], vec![]], vec![vec!['b', 'a'], vec!['a']]),
+        (vec![vec![vec![v('x'), v('x')], vec![l('a')]]], vec![vec!['b', 'b', 'b'], vec!['a', 'a']]),
+    ];
+    for (pats, host) in fixed {
+        for h in [Heur::Default, Heur::Never] {
+            matrix_case("E2E", &pats, &h, &[host.clone(), vec![]]);
+        }
+    }
+    for _ in 0..n {
+        let pats = gen_matrix_set(&mut rng, thorough);
+        let heur = random_heur(&mut rng);
+        let nh = rng.range(1, 3);
+        let hosts: Vec<Vec<Vec<char>>> = (0..nh).map(|_| planted_mat_host(&mut rng, &pats)).collect();
+        matrix_case("E2E", &pats, &heur, &hosts);
+    }
+}
+
+// ------------------------------------------------------------------------------ table domain
+
+type HM = FxHashMap<usize, usize>;
+
+/// A table-domain pattern: a constraint list, optional extra required keys, and a flag making
+/// it non-convertible (for the fallback modes).
+#[derive(Clone, Debug)]
+pub struct TPattern {
+    pub cons: Vec<TCons>,
+    pub extra: Option<Vec<usize>>,
+    pub convertible: bool,
+}
+
+impl Pattern for TPattern {
+    type Key = usize;
+    type Predicate = TPred;
+    type Error = ();
+    fn try_to_constraint_vec(&self) -> Result<Vec<TCons>, ()> {
+        if self.convertible {
+            Ok(self.cons.clone())
+        } else {
+            Err(())
+        }
+    }
+    fn required_bindings(&self) -> Option<Vec<usize>> {
+        self.extra.clone()
+    }
+}
+
+pub fn enc_tmap(l: &mut Line, m: &HM) {
+    let mut v: Vec<(usize, usize)> = m.iter().map(|(a, b)| (*a, *b)).collect();
+    v.sort();
+    enc_pairs(l, &v);
+}
+
+#[allow(clippy::too_many_arguments)]
+pub fn table_case(
+    kind: &str,
+    req: &[Vec<usize>],
+    strategy: usize,
+    pats: &[TPattern],
+    fallback_fail: bool,
+    heur: &Heur,
+    hosts: &[THost<HM>],
+) {
+    set_req(req);
+    set_strategy(strategy);
+    let mut l = Line::new(kind);
+    l.tok("T");
+    enc_scheme(&mut l, req);
+    l.tok(strategy);
+    l.list(pats, |l, p| {
+        l.list(&p.cons, |l, c| enc_tcons(l, c));
+        l.opt(&p.extra, |l, e| {
+            l.nats(e);
+        });
+        l.tok(p.convertible as usize);
     });
-    match r {
-        Ok(out) => println!("{} {}", l.0, out.0.trim_start()),
-        Err(t) => println!("{} P {}", l.0, t),
+    l.tok(fallback_fail as usize);
+    heur.encode(&mut l);
+    l.list(hosts, |l, h| h.encode(l));
+    e2e_generic::<TPattern, TPred, THost<HM>>(
+        l,
+        pats.to_vec(),
+        if fallback_fail { PatternFallback::Fail } else { PatternFallback::Skip },
+        heur,
+        hosts,
+        enc_tcons,
+        |k| k.to_string(),
+        enc_tmap,
+    );
+}
+
+pub fn run_table(seed: u64, thorough: bool, n: usize) {
+    let mut rng = Rng::new(seed, "e2e.table");
+    // fixed case first: the F4 witness — a constraint that holds trivially labels the tree root
+    {
+        let req = vec![vec![]];
+        let t = Constraint::try_new(TPred::True(1), vec![0]).unwrap();
+        let c1 = Constraint::try_new(TPred::Const(1), vec![0]).unwrap();
+        let pats = vec![
+            TPattern { cons: vec![t], extra: None, convertible: true },
+            TPattern { cons: vec![c1], extra: None, convertible: true },
+        ];
+        let host = THost::<HM>::new(
+            true,
+            vec![vec![crate::table::Rule { cond: None, vals: vec![1, 2] }]],
+        );
+        for h in [Heur::Default, Heur::Never] {
+            table_case("E2E", &req, 4, &pats, true, &h, &[host.clone()]);
+        }
+    }
+    for _ in 0..n {
+        let nkeys = rng.range(2, 5);
+        let req = random_dag(&mut rng, nkeys, 2);
+        let strategy = rng.below(5);
+        let np = rng.range(1, if thorough { 7 } else { 5 });
+        let mut pats: Vec<TPattern> = vec![];
+        for _ in 0..np {
+            let nc = rng.range(0, 4);
+            let mut cons: Vec<TCons> = if !pats.is_empty() && rng.chance(1, 3) {
+                // share a prefix
+                let base = &rng.pick(&pats).cons;
+                base[..rng.below(base.len() + 1)].to_vec()
+            } else {
+                vec![]
+            };
+            while cons.len() < nc {
+                cons.push(random_tcons(&mut rng, nkeys));
+            }
+            let extra = if rng.chance(1, 6) { Some(vec![rng.below(nkeys)]) } else { None };
+            pats.push(TPattern { cons, extra, convertible: !rng.chance(1, 10) });
+        }
+        let fallback_fail = rng.chance(1, 2);
+        let heur = random_heur(&mut rng);
+        let nh = rng.range(1, 3);
+        let hosts: Vec<THost<HM>> = (0..nh)
+            .map(|_| {
+                let mut h = random_host::<HM>(&mut rng, nkeys, 3);
+                // contract-conforming hosts only: offer nothing while a prerequisite is
+                // unbound, and let the offer depend on the values of prerequisites only
+                h.strict = true;
+                for (k, rules) in h.rules.iter_mut().enumerate() {
+                    for r in rules.iter_mut() {
+                        if let Some((ck, cv)) = r.cond {
+                            r.cond = if req[k].is_empty() {
+                                None
+                            } else {
+                                Some((req[k][ck % req[k].len()], cv))
+                            };
+                        }
+                    }
+                }
+                h
+            })
+            .collect();
+        table_case("E2E", &req, strategy, &pats, fallback_fail, &heur, &hosts);
     }
 }
 
